@@ -73,6 +73,8 @@ class Walker:
                 break
             events, code, err = self.results[li]
             self.walk_life(li, life, events, code, err)
+            if getattr(self, "aborted", False):
+                break
         self.finish()
         return self.viol, self.stats
 
@@ -135,9 +137,20 @@ class Walker:
             if crash is None and not (end and end.get("how") == "kill"):
                 raise HarnessError(f"life {li}: exit 137 without crash/kill record: {err[-300:]}")
             self.life_kind.append("crash")
+        elif code == 101 and not ready and li > 0:
+            # the server panicked while starting up on the directories a previous lifetime left behind: the store
+            # is unusable (every applied event is unreadable). A property violation, not a harness problem.
+            import re as _re
+            m = _re.search(r"panicked at [^\n]*\n[^\n]*", err or "")
+            self.life_kind.append("crash")
+            self.v("restart-panic", li, 0, f"start-up panicked: {(m.group(0) if m else err[-200:])[:300]}")
+            self.aborted = True
+            return
         else:
             # anything else (panic=101, signal, timeout) is not a planned outcome
-            raise HarnessError(f"life {li}: unexpected exit {code}: {err[-400:]}")
+            import re as _re
+            m = _re.search(r"panicked at [^\n]*\n[^\n]*", err or "")
+            raise HarnessError(f"life {li}: unexpected exit {code}: {(m.group(0) if m else '')[:400]} ... {err[-200:]}")
         if crash is not None and not (planned_crash or hold_crash or torn):
             raise HarnessError(f"life {li}: unplanned crash record {crash}")
         self.stats["lifetimes"] += 1
